@@ -14,6 +14,10 @@ register(
         "GtModel.C17.sort_sorted_partial",
         "GtModel.C17.search_tighten_terminates",
         "GtModel.C17.search_terminates",
+        "GtModel.C17.search_returns_min",
+        "GtModel.C17.search_bounds_point",
+        "GtModel.C17.search_bounds_sound",
+        "GtModel.C17.search_reach",
     ],
     streams=["bounded"],
     assumptions=[
@@ -21,16 +25,21 @@ register(
         "(ValidSt); IterativeTighteningSearch is used with the default initial_bounds (graphtage never passes one)",
         "intervaltree's set iteration inside make_distinct picks some maximal-size interval (validated per run; the "
         "theorems hold for every such choice)",
-        "FibonacciHeap: every pop is justified by comparisons it performed, and after a pop _min is a node of minimal "
-        "key (validated per run by the model; to be discharged by the C16 heap theorems)",
+        "FibonacciHeap inside bounds.sort: every pop is justified by comparisons it performed (hypothesis of "
+        "sort_sorted_partial, validated per run by the model).  Inside IterativeTighteningSearch the heap's _min after "
+        "a pop is an oracle answer validated to be a node of minimal key; the search theorems hold for EVERY oracle "
+        "(an inadmissible answer is replaced by the first minimal node), so this only matters for the "
+        "model-vs-code correspondence",
     ],
     trusted=[
         "harness wrappers recording oracle answers: subclasses substituted for graphtage.bounds.BoundedComparator, "
         "graphtage.bounds.IntervalTree and graphtage.search.FibonacciHeap inside the worker process only",
     ],
-    partial="sort_sorted_partial assumes the heap contract (transcript accepted by sortReplay) instead of deriving it "
-            "from a heap model; for IterativeTighteningSearch only termination (search_tighten_terminates, "
-            "search_terminates) is proved - search_returns_min / search_bounds_point / search_bounds_sound are "
-            "covered by the correspondence stream and the monitor (exhaustive small scope in the thorough tier) but "
-            "not by a theorem: the invariant of the two heaps with stale keys is not yet formalised",
+    partial="sort_sorted_partial assumes the heap contract (the recorded transcript of comparator calls and pops is "
+            "accepted by sortReplay: every pop is justified by performed comparisons) instead of deriving it from a "
+            "heap model; the contract is validated on every recorded run.  The C16 heap model cannot discharge it as "
+            "is: it takes a pure comparator with asymmetry (Total), while BoundedComparator is stateful and answers "
+            "ties either way - C16's heap functions would have to thread an answer oracle and its invariant be "
+            "phrased on final costs (see NOTES_C17.md).  The IterativeTighteningSearch theorems are proved for the "
+            "default initial_bounds only (explicit initial_bounds is a documented defect, witnesses in Props/C17.lean)",
 )
